@@ -48,6 +48,10 @@ CLAIMED = {
             "For a symbolic tetrahedron and every matrix of the families translation / diag scale with all sign patterns / shear / scaled catalogue rotation / near-identity on each side of the 1e-8 and 1e-6 shortcuts: every vertex moves to M.v, faces are re-wound exactly when det<0, "
             "M then M^-1 restores the mesh, A then B equals B.A; volume scales by |det| and the centre of mass maps through M (catalogue tetrahedron, symbolic matrix); the same point law for point clouds, 3D paths (with discrete read before or not), a scene node and a voxel grid.",
             TRUSTED + "np.random.random inside flips_winding is an environment stub with a fixed draw (independence from the draw is not decided by z3 and not claimed); primitives, 2D paths, cameras/lights not claimed; area/inertia laws follow from C03 applied to the verified vertices and are not re-proved."),
+    "C01": ("other", "DESIGN.md#c01", "inductive step over the real Trimesh cache executed symbolically: read-set x one mutator with symbolic arguments x comparison of every derived value with a freshly built mesh; z3 decides numeric keys per path, topology keys are concrete per path",
+            "From a state in which the cache holds exactly what a fresh mesh computes (a chosen read-set: nothing / everything / normals only / topology only) ONE mutator runs - apply_transform over the matrix families of C04 with symbolic parameters, in-place and re-assigning edits with a symbolic value, "
+            "invert, update_faces, update_vertices, remove_unreferenced_vertices, copy(include_cache) - and 19 derived values equal those of a mesh rebuilt from the resulting arrays for ALL parameter values. The post-state is again 'equal to fresh', so interleavings of any length follow by induction; the bound is the mesh (catalogue tetrahedron / strip).",
+            TRUSTED + "catalogue meshes; vertex_normals, ray/nearest structures, kd-tree, hull, principal axes not compared (only that mutators dump them is exercised through the data hash, C02's subject); scale matrices either exact similarities or >= 1e-3 anisotropic (1e-8 similarity band excluded)."),
 }
 
 NOT_APPLICABLE = {
